@@ -65,6 +65,36 @@ func Accesses(fn *ssa.Function) []Access {
 			case *ssa.FieldAddr, *ssa.IndexAddr:
 				// nested aggregate: the inner FieldAddr is enumerated on its own
 			case *ssa.DebugRef:
+			case *ssa.Phi:
+				// `p := &x.a; if c { p = &x.b }; atomic.AddUint64(p, 1)`: the address is only chosen here;
+				// what matters is what the merged pointer is used for
+				onlyAtomic, n := true, 0
+				if pr := x.Referrers(); pr != nil {
+					for _, u := range *pr {
+						if _, dbg := u.(*ssa.DebugRef); dbg {
+							continue
+						}
+						n++
+						ci, isCall := u.(ssa.CallInstruction)
+						if !isCall {
+							onlyAtomic = false
+							continue
+						}
+						name := CalleeName(ci)
+						if !(strings.HasPrefix(name, "sync/atomic.") || strings.HasPrefix(name, "(*sync/atomic.")) {
+							onlyAtomic = false
+						}
+					}
+				}
+				if onlyAtomic && n > 0 {
+					for _, u := range *x.Referrers() {
+						if ci, isCall := u.(ssa.CallInstruction); isCall {
+							add(ci, "atomic")
+						}
+					}
+				} else {
+					add(r, "escape")
+				}
 			default:
 				add(r, "escape")
 			}
@@ -305,6 +335,11 @@ func (f *Fresh) fresh(v ssa.Value, deep bool, d int) bool {
 			return true
 		}
 		if sf := StaticFn(x); sf != nil && f.P.IsHelios(sf) {
+			// a helper that hands back one of its own arguments (`pool.Get().(*T).emptied()`): as fresh
+			// as that argument, provided the helper puts nothing shared into it
+			if i := passthroughParam(sf); i >= 0 && i < len(x.Call.Args) && f.storesOnlyFreshInto(sf, i) {
+				return f.fresh(x.Call.Args[i], deep, d+1)
+			}
 			if !f.ReturnsFresh(sf) {
 				return false
 			}
@@ -564,4 +599,60 @@ func (c *Ctx) snapshotNoEscape() {
 		}
 	}
 	c.Floor("snapshot-no-escape", n, 1, "snapshot-returning functions")
+}
+
+// passthroughParam: the index of the parameter that fn returns on every return (its single result),
+// or -1.
+func passthroughParam(fn *ssa.Function) int {
+	if fn.Blocks == nil || fn.Signature.Results().Len() != 1 {
+		return -1
+	}
+	idx, n := -1, 0
+	ok := true
+	instrsOf(fn, func(in ssa.Instruction) {
+		r, isRet := in.(*ssa.Return)
+		if !isRet || len(r.Results) != 1 {
+			return
+		}
+		n++
+		v := singleStore(r.Results[0])
+		found := -1
+		for i, p := range fn.Params {
+			if ssa.Value(p) == v {
+				found = i
+			}
+		}
+		if found < 0 || (idx >= 0 && found != idx) {
+			ok = false
+		}
+		idx = found
+	})
+	if !ok || n == 0 {
+		return -1
+	}
+	return idx
+}
+
+// storesOnlyFreshInto: every pointer-ish value fn stores into the object its parameter i points to
+// (fields, map entries) is itself freshly created there.
+func (f *Fresh) storesOnlyFreshInto(fn *ssa.Function, i int) bool {
+	prm := ssa.Value(fn.Params[i])
+	ok := true
+	instrsOf(fn, func(in ssa.Instruction) {
+		switch x := in.(type) {
+		case *ssa.Store:
+			if rootOf(x.Addr) == prm && pointerish(x.Val.Type()) {
+				if _, isConst := x.Val.(*ssa.Const); !isConst && !f.fresh(x.Val, false, 1) {
+					ok = false
+				}
+			}
+		case *ssa.MapUpdate:
+			if rootOf(x.Map) == prm && pointerish(x.Value.Type()) {
+				if _, isConst := x.Value.(*ssa.Const); !isConst && !f.fresh(x.Value, false, 1) {
+					ok = false
+				}
+			}
+		}
+	})
+	return ok
 }
